@@ -1,10 +1,13 @@
 (** C16 — genetic maps beyond the explicit-units table codec of Model/C16_Codec.v:
-      (1) what the constructors make of [spline_kind] / [spline_fill_value] (StandardGeneticMap hands them to build_spline,
-          ExtendedGeneticMap calls build_spline with only its own keyword dictionary, i.e. with the defaults of build_spline),
+      (1) what the constructors make of [spline_kind] / [spline_fill_value] (both classes hand them to build_spline; the former
+          ExtendedGeneticMap called build_spline with only its own keyword dictionary, i.e. with the defaults of build_spline:
+          [old_egmap_ctor_kind], kept as a regression witness),
       (2) the table codec called with DEFAULT arguments on both sides (the writers default to centiMorgans, the readers to
           Morgans; ExtendedGeneticMap.from_pandas reads no name / function-code column by default),
-      (3) the egmap file pair (to_egmap = tab-separated to_csv in Morgans; from_egmap reads columns by position and the two
-          optional ones only under particular header names).
+      (3) the egmap file pair (to_egmap = tab-separated to_csv in Morgans with the optional columns under the documented names;
+          from_egmap reads columns by position and each of the two optional ones only when the header has its name and the column
+          is not entirely empty, an absent array being written as an empty column; the former pair - other names on the writer's
+          side, no emptiness test - is kept as [old_egmap_to] / [old_egmap_from], a regression witness).
     Which arguments / defaults / column names the source uses comes from Gen/C16_Kernel.v (regenerated on every run).
     Definitions only. *)
 From Coq Require Import String PrimFloat.
@@ -18,6 +21,9 @@ Definition ctor_kind (ext : bool) : str -> bool -> str :=
   ctor_setting (if ext then k_egmap_ctor_passes_kind else k_gmap_ctor_passes_kind) (zs (if ext then k_egmap_build_default_kind else k_gmap_build_default_kind)).
 Definition ctor_fill (ext : bool) : str -> bool -> str :=
   ctor_setting (if ext then k_egmap_ctor_passes_fill else k_gmap_ctor_passes_fill) (zs (if ext then k_egmap_build_default_fill else k_gmap_build_default_fill)).
+(** the former ExtendedGeneticMap constructor: self.build_spline( **kwargs), nothing handed over *)
+Definition old_egmap_ctor_kind : str -> bool -> str := ctor_setting false (zs "linear").
+Definition old_egmap_ctor_fill : str -> bool -> str := ctor_setting false (zs "extrapolate").
 Definition agree_kind (ext : bool) (kind fill : str) (auto_build : bool) (obs_kind obs_fill : str) : bool :=
   str_eqb (ctor_kind ext kind auto_build) obs_kind && str_eqb (ctor_fill ext fill auto_build) obs_fill.
 
@@ -45,15 +51,21 @@ Definition agree_gmap_default (ext : bool) (g : gmap) (df dfr : tbl)
 (** ** (3) egmap files *)
 Definition egmap_header : list cell := map (fun s => CS (zs s)) k_egmap_file_header.
 (** the table to_egmap hands to the CSV writer: the Morgan frame of the extended map under the file's column names *)
-Definition egmap_to (g : gmap) : tbl := combine egmap_header (map snd (gmap_to_pandas true UM g)).
+Definition egmap_to_with (header : list cell) (g : gmap) : tbl := combine header (map snd (gmap_to_pandas true UM g)).
+Definition egmap_to (g : gmap) : tbl := egmap_to_with egmap_header g.
 Definition has_col (nm : String.string) (t : tbl) : bool := some_b (col_loc (CS (zs nm)) t 0).
-Definition egmap_from (auto_group : bool) (t : tbl) : option (gmap * option (list Z * list Z * list Z * list Z)) :=
+(** df[nm].notna().any() *)
+Definition col_has_value (nm : String.string) (t : tbl) : bool :=
+  match col_of (CS (zs nm)) t with Some c => existsb (fun x => negb (is_na x)) c | None => false end.
+(** [rd in_header has_value]: is the optional column read? *)
+Definition egmap_from_with (rd : bool -> bool -> bool) (auto_group : bool) (t : tbl) : option (gmap * option (list Z * list Z * list Z * list Z)) :=
   match nth_error t 0, nth_error t 1, nth_error t 2, nth_error t 3 with
   | Some c, Some p, Some s, Some g =>
     match opt_all (map as_int (snd c)), opt_all (map as_int (snd p)), opt_all (map as_int (snd s)), opt_all (map as_float (snd g)) with
     | Some c', Some p', Some s', Some g' =>
       let opt_col (i : nat) (nm : String.string) : option (option (list str)) :=
-          if has_col nm t then match nth_error t i with Some x => option_map Some (opt_all (map as_str (snd x))) | None => None end else Some None in
+          if rd (has_col nm t) (col_has_value nm t)
+          then match nth_error t i with Some x => option_map Some (opt_all (map as_str (snd x))) | None => None end else Some None in
       match opt_col 4%nat (nth 0 k_egmap_file_optional ""%string), opt_col 5%nat (nth 1 k_egmap_file_optional ""%string) with
       | Some nm, Some fn => Some (gmap_construct auto_group (mkG c' p' (Some s') g' nm fn))
       | _, _ => None
@@ -62,6 +74,12 @@ Definition egmap_from (auto_group : bool) (t : tbl) : option (gmap * option (lis
     end
   | _, _, _, _ => None
   end.
+Definition egmap_from : bool -> tbl -> option (gmap * option (list Z * list Z * list Z * list Z)) := egmap_from_with k_egmap_optional_read.
+(** the former pair: to_egmap left the optional columns under to_csv's default names; from_egmap read an optional column whenever the
+    header had the documented name *)
+Definition old_egmap_header : list cell := map (fun s => CS (zs s)) ["chr"; "pos"; "stop"; "M"; "name"; "fncode"]%string.
+Definition old_egmap_to (g : gmap) : tbl := egmap_to_with old_egmap_header g.
+Definition old_egmap_from : bool -> tbl -> option (gmap * option (list Z * list Z * list Z * list Z)) := egmap_from_with (fun in_header _ => in_header).
 Definition agree_egmap (auto_group spline : bool) (header_written : bool) (dfr : tbl)
            (back : option (gmap * option (list Z * list Z * list Z * list Z) * option (list (Z * list float)))) : bool :=
   (negb header_written || list_eqb cell_eqb (map fst dfr) egmap_header)
